@@ -73,7 +73,7 @@ type c18Obs struct {
 
 // script: "w" short wait (expected false while something is pending), "W" long wait, "c" 4 concurrent waits,
 // "t:<task>" answer a task
-func c18Run(xmlText string, script []string, pendingAt func(done map[string]bool) bool) (o c18Obs) {
+func c18Run(xmlText string, script []string, pendingAt func(done map[string]bool) bool, nProc int) (o c18Obs) {
 	o.reqs = map[string]int{}
 	defer func() {
 		if r := recover(); r != nil {
@@ -143,6 +143,11 @@ func c18Run(xmlText string, script []string, pendingAt func(done map[string]bool
 			done[op[2:]] = true
 		}
 	}
+	// the traces travel through relays and the collector's pump: wait for the ones a completed set must
+	// have produced before looking for surplus ones
+	if len(o.waits) > 0 && o.waits[len(o.waits)-1] == 1 {
+		col.WaitUntil(tmoStep, func(l []Ev) bool { return countEv(l, "ceaseset", "*") >= 1 && countEv(l, "cease", "*") >= nProc })
+	}
 	time.Sleep(settle)
 	o.log = col.Log()
 	for _, e := range o.log {
@@ -205,7 +210,7 @@ func runC18(env *Env) {
 			}
 			cs := fmt.Sprintf("set [%s], script %v (repetition %d)", sc.name, sc.script, r)
 			env.Current(cs)
-			o := c18Run(xmlText, sc.script, sc.pending)
+			o := c18Run(xmlText, sc.script, sc.pending, sc.nProc)
 			rep.Evaluations++
 			rep.Count(sc.name)
 			if sc.nProc > 1 || len(o.waits) > 1 {
